@@ -698,6 +698,10 @@ class Unit:
         self.chunks.append(('ghost', label, text.strip('\n') + '\n', None))
 
     def emit(self, item, under_contract=True):
+        if under_contract and '#[verifier::external_body]' not in item.text:
+            # reachability marker at the start of every function body (used by the vacuity pass of vrun: replaced by
+            # `assert(false)`, which must FAIL — a contradictory precondition would make it pass)
+            item.body_start_all('        /*VF-REACH*/')
         item.final = item.finalize()
         self.chunks.append(('item', item.name, item.final.strip('\n') + '\n', item))
         if under_contract:
